@@ -176,8 +176,8 @@ impl Check for C11 {
     }
     fn cases(&self, tier: Tier) -> u64 {
         match tier {
-            Tier::Quick => 80_000,
-            Tier::Thorough => 3_000_000,
+            Tier::Quick => 600_000,
+            Tier::Thorough => 20_000_000,
         }
     }
     fn one_case(&self, data: &[u8], ctx: &mut Ctx) -> Outcome {
